@@ -22,6 +22,7 @@ class Ctx:
         self.frame_results = []     # ownership checker results
         self.xval = []              # encoder cross-validation cases for the venv side
         self.t0 = time.time()
+        self.default_meta = {}
 
     # -- source access
     def mod(self, name):
@@ -45,13 +46,15 @@ class Ctx:
         """take over obligations, trusted entries and notes generated inside an executor"""
         for ob in ex.obligations:
             ob.name = '%s.%s' % (self.prop, ob.name) if not ob.name.startswith(self.prop + '.') else ob.name
+            for k, v in self.default_meta.items():
+                ob.meta.setdefault(k, v)
             self.obligations.append(ob)
         ex.obligations = []
         self.trusted |= ex.trusted
         self.notes += ex.notes
 
     def post(self, name, hyps, goal, kind='post', witness=None, replay=None, func=None):
-        ob = Obligation('%s.%s' % (self.prop, name), hyps, goal, kind, meta=dict(replay=replay, func=func), witness=witness)
+        ob = Obligation('%s.%s' % (self.prop, name), hyps, goal, kind, meta=dict(self.default_meta, replay=replay, func=func), witness=witness)
         self.obligations.append(ob)
         return ob
 
